@@ -27,7 +27,7 @@ META = dict(
     "y_x_model at observed entries, every parameter after update_parameters in and after burn-in) are proved equal for two executions "
     "that differ only in the values stored under the mask (reals, and IEEE float32 incl. NaN/inf), and for a cohort with one more "
     "all-masked visit; counts are proved equal to the number of true mask bits.",
-    bounds="2 individuals x 2 visits (+1 padded) x 2 features, sources 0..1, logistic and linear (shared-speed in thorough); symbolic mask",
+    bounds="2 individuals x 2 visits (+1 padded) x 2 features, sources 0..1, logistic and linear (shared-speed in thorough); symbolic mask; explicit oracle for `noise estimates use observed entries only` (updated noise^2 * count == sum over observed entries of (y - model)^2) in the real-arithmetic tasks",
     outside="bit-level equality of float reductions under different padding (torch's reduction order is not modelled); personalization outputs",
     assumptions=["R: floats as reals", "F: reductions modelled as a left fold (claims are order-insensitive: same order in both runs)", "transcendental functions abstracted (same abstraction in both runs, congruence)"],
 )
